@@ -51,6 +51,13 @@ def frame_oracle(kind, ops, obs):
                 if g not in t and prev.get(g) != cur.get(g):
                     return 'step %d merge(%s,%s) changed graph %s' % (i, op[1], op[3], sc.UNSYM.get(g, g))
         ok = o['r'][0] == 'ok'
+        if k == 'add_node' and ok and not sc.rehomes(op):
+            # the new node gets an identity of its own: every node the graph held is still there, unchanged
+            g = sc.SYM[op[1]]
+            before = {n[0]: n[1] for n in prev.get(g, [[], []])[0]}
+            after = {n[0]: n[1] for n in cur.get(g, [[], []])[0]}
+            if any(after.get(i) != ps for i, ps in before.items()) or len(after) != len(before) + 1:
+                return 'step %d add_node took the internal id of a stored node of graph %s' % (i, op[1])
         if sc.rehomes(op):
             rehomed = True
         if rehomed:          # nodes may now sit in a graph their GraphID does not name: content checks are off
